@@ -619,19 +619,27 @@ theorem try_inner (hc : CfgOK cfg) {s1 : State} (i1 : SzInv cfg s1) {Li : Layout
     (he : alloc cfg s1 Li = .ok (s2, r)) {u : Unit} (hv : validLayout Li = .ok u) : SzInv cfg s2 :=
   i1.alloc hc (validLayout_valid hv) he
 
+/-- the end of `alloc_try_with`: the position may be set / reset, blocks are registered or killed -/
+local macro "try_tail " x:term : tactic => `(tactic| first
+  | exact sizes_gs_okOut (sizes_setCurPos (sizes_addBlock $x))
+  | exact sizes_gs_okOut (sizes_setCurPos $x)
+  | exact sizes_gs_okOut (sizes_addBlock $x)
+  | exact sizes_gs_okOut $x
+  | exact sizes_gs_kill (sizes_of_resetTo (by assumption) (sizes_addBlock $x))
+  | exact sizes_gs_kill (sizes_of_resetTo (by assumption) $x)
+  | exact sizes_gs (sizes_addBlock $x)
+  | exact sizes_gs $x)
+
 theorem sizes_allocTryWith {L : Layout} {off vsize : Nat} {ok : Bool} {inner : Option Layout} {mut_ : Bool}
     (hsma : L.align ∣ L.size) (hc : CfgOK cfg) (i : SzInv cfg g.s)
     (hs : stepCore cfg g (.allocTryWith L off vsize ok inner mut_) = .ok (g', out)) : SizesIncreasing g'.s := by
   unfold stepCore at hs
   split_ok hs with
     (have i1 := try_first hc i (by assumption) hsma (by assumption)
-     (first | apply sizes_gs_okOut | apply sizes_gs_kill | apply sizes_gs)
-     (try apply sizes_setCurPos)
-     (try apply sizes_of_resetTo (by assumption))
-     (try apply sizes_addBlock)
      first
-       | exact (try_inner hc i1 (by assumption) (by assumption)).sizes
-       | exact i1.sizes)
+       | (have i2 := try_inner hc i1 (by assumption) (by assumption)
+          try_tail i2.sizes)
+       | try_tail i1.sizes)
 
 end ops
 
